@@ -3,6 +3,7 @@ CONSTANTS Streams <- Big
   ReadMax = 2048
   MaxReads = 3
   Fails <- NoFail
+  Swaps <- NoSwap
   Cuts <- BigCuts
   D = 0
 INIT Init
